@@ -9,6 +9,16 @@ use crate::compression::decompress;
 use crate::varint::varint_decode32;
 use crate::{CompressionType, Error};
 
+/// Reads exactly `block_len` bytes of a stored block into `out`.
+fn read_stored_block<R: io::Read>(reader: R, block_len: u64, out: &mut Vec<u8>) -> io::Result<()> {
+    use io::Read;
+    let read = reader.take(block_len).read_to_end(out)?;
+    if read as u64 != block_len {
+        return Err(io::ErrorKind::UnexpectedEof.into());
+    }
+    Ok(())
+}
+
 /// Represent a `Block`, with the index offsets and the key value payload.
 #[derive(Clone)]
 pub struct Block {
@@ -47,10 +57,17 @@ impl Block {
     pub fn read_from<R: io::Read>(&mut self, mut reader: R) -> Result<(), Error> {
         let block_len = reader.read_u64::<BigEndian>()?;
 
-        // We limit the amount of bytes that the decompress function is
-        // allowed to read and give it the buffer to decompress into it.
+        // We read the stored block entirely before decompressing it: the decompressors must
+        // never be exposed to the interruptions, short reads or failures of the underlying
+        // reader, some of them mistake those for the end of the stream or lose their position.
         self.buffer.clear();
-        decompress(self.compression_type, reader.take(block_len), &mut self.buffer)?;
+        if self.compression_type == CompressionType::None {
+            read_stored_block(reader, block_len, &mut self.buffer)?;
+        } else {
+            let mut stored = Vec::new();
+            read_stored_block(reader, block_len, &mut stored)?;
+            decompress(self.compression_type, stored.as_slice(), &mut self.buffer)?;
+        }
 
         // We retrieve the size of the index footer, the footer and
         // then compute the size of the payload.
